@@ -10,6 +10,8 @@ import Mochi.Driver.Broker
 import Mochi.Driver.BrokerSpec
 import Mochi.Driver.WriteBuf
 import Mochi.Driver.Storage
+import Mochi.Driver.Reader
+import Mochi.Driver.Hostile
 open Mochi.Driver
 
 structure DState where
@@ -19,6 +21,7 @@ structure DState where
   broker : BkState := {}
   writebuf : WState := {}
   storage : St.StState := {}
+  hostile : HState := {}
 
 /-- input line: `op args…<TAB>implementation output`;
     answer line: `model output<TAB>spec verdict<TAB>signature`; unknown op => `bad-op` -/
@@ -32,7 +35,7 @@ def answer (st : DState) (line : String) : DState × String :=
   match ws with
   | ["reset"] => ({}, "-\tok\t-")
   | _ =>
-    match (varintOp impl ws <|> keepaliveOp impl ws <|> wsOp impl ws <|> codecOp impl ws) with
+    match (varintOp impl ws <|> keepaliveOp impl ws <|> wsOp impl ws <|> codecOp impl ws <|> readerOp impl ws) with
     | some r => (st, fmt r)
     | none =>
       match (topicsOp st.topics impl ws <|> topicsConcOp st.topics impl ws) with
@@ -44,8 +47,8 @@ def answer (st : DState) (line : String) : DState × String :=
           match bufpoolOp st.bufpool impl ws with
           | some (b', r) => ({ st with bufpool := b' }, fmt r)
           | none =>
-            match brokerOpV st.broker impl ws with
-            | some (k', r) => ({ st with broker := k' }, fmt r)
+            match hostileOpV st.broker st.hostile impl ws with
+            | some (k', h', r) => ({ st with broker := k', hostile := h' }, fmt r)
             | none =>
               match writebufOp st.writebuf impl ws with
               | some (w', r) => ({ st with writebuf := w' }, fmt r)
